@@ -387,6 +387,39 @@ class C06(Property):
                 add(f"expect {n0} {n1} {w[0]} {w[1]} " + listlist_s([p], rat_s), "expectedWindow(spec)", dict(case, i=i),
                     ["ok", ref.reshape(-1).tolist()])
             ctx.count(f"reduce_to_waves:{'far' if far else 'in-cell'}:{shape}:npos={len(pix)}")
+        # 4b. the same call site with K planes and integer coefficients per position (crop, tensordot, batch crop in the code's order)
+        for _ in range(ctx.n(30, 300)):
+            f0, f1 = rng.choice([(2, 2), (2, 1), (1, 2), (3, 3)])
+            n0, n1 = f0 * rng.randint(2, 4), f1 * rng.randint(2, 4)
+            smp = rng.choice([0.25, 0.5])
+            sm = SMatrix(energy=ENERGY, semiangle_cutoff=20, interpolation=(f0, f1), downsample=False,
+                         extent=(n0 * smp, n1 * smp), gpts=(n0, n1))
+            sa = sm.build(lazy=False)
+            K = len(sa.wave_vectors)
+            if tuple(sa.gpts) != (n0, n1) or tuple(sa.window_gpts) != (n0 // f0, n1 // f1) or K < 2:
+                continue
+            w = tuple(sa.window_gpts)
+            Kuse = min(K, rng.randint(2, 4))
+            npos = rng.choice([1, 2, 3, 4])
+            pix = [[dyadic(rng, -2 * n0, 3 * n0, rng.choice([0, 1])), dyadic(rng, -2 * n1, 3 * n1, rng.choice([0, 1]))] for _ in range(npos)]
+            cs = [[rng.randint(-3, 3) for _ in range(Kuse)] for _ in range(npos)]
+            arr_ = np.zeros((K, n0, n1), dtype=np.complex64)
+            for k in range(Kuse):
+                arr_[k] = np.arange(n0 * n1).reshape(n0, n1) + 1000 * k
+            coeff = np.zeros((npos, K), dtype=np.complex64)
+            coeff[:, :Kuse] = np.array(cs)
+            positions = np.array(pix, dtype=np.float64) * smp
+            shape = "grid" if npos == 4 and rng.random() < 0.5 else "flat"
+            if shape == "grid":
+                positions = positions.reshape(2, 2, 2); coeff = coeff.reshape(2, 2, K)
+            case = dict(fn="_reduce_to_waves(K planes)", n=[n0, n1], w=list(w), pixel=pix, coeffs=cs, shape=shape)
+            try:
+                r = np.asarray(sa._reduce_to_waves(arr_, positions, coeff)).reshape((npos,) + w)
+                impl = ["ok"] + [np.rint(q.real).astype(int).reshape(-1).tolist() for q in r]
+            except Exception as e:  # noqa
+                impl = ["err", err_kind(e)]
+            add(f"reducek {n0} {n1} {w[0]} {w[1]} {Kuse} " + listlist_s(pix, rat_s) + " " + listlist_s(cs), "_reduce_to_waves", case, impl)
+            ctx.count(f"reduce_to_waves:K={Kuse}:{shape}:npos={npos}")
         # 5. phases and amplitude (numeric, float32 implementation) ---------------------------------------
         PI = rat_s(float(np.pi))
         phase_jobs = []
